@@ -749,6 +749,10 @@ def filtered_indices(n, pred):
                           patterns=[f(a)])))
     c.assume(SB(z3.ForAll([a, b], z3.Implies(z3.And(0 <= a, a < b, b < mt), f(a) < f(b)),
                           patterns=[z3.MultiPattern(f(a), f(b))])))
+    # consequences of 'strictly increasing within [0, n)' that need induction (stated, not derived, here):
+    # sel(a) >= a, and the selection of *all* indices is the identity list
+    c.assume(SB(z3.ForAll([a], z3.Implies(z3.And(0 <= a, a < mt), z3.And(f(a) >= a, z3.Implies(mt == nt, f(a) == a))),
+                          patterns=[f(a)])))
     inv = c.fresh_fun("selinv", [I], I)
     c.assume(SB(z3.ForAll([k], z3.Implies(z3.And(0 <= k, k < nt, pk),
                                           z3.And(0 <= inv(k), inv(k) < mt, f(inv(k)) == k)),
